@@ -4,6 +4,7 @@
 // of the simulation are empty here; what is used is workload + reference model
 // + minimised replay, with a bijective seed sweep over the bounded space the
 // property names.
+#include <memory>
 #include "../sim/core/runner.hpp"
 #include "romea_core_common/containers/grid/WrappableGrid.hpp"
 
@@ -13,7 +14,8 @@ namespace {
 
 struct Op
 {
-  int kind;        // 0 = write, 1 = translate, 2 = setValue (fill every cell), 3 = translate with the default empty value T()
+  int kind;        // 0 = write, 1 = translate, 2 = setValue (fill every cell), 3 = translate with the default empty value T(),
+                   // 4 = continue on a copy of the grid
   int a[3];        // write: logical index; translate: offset
   int64_t value;   // write: tag; translate: empty value
 };
@@ -66,7 +68,8 @@ Outcome runGrid(const Plan & p, Ctx & c)
   using CO = typename Grid::CellIndexesOffset;
   CI nn;
   for (size_t k = 0; k < DIM; ++k) {nn[(long)k] = (size_t)p.n[k];}
-  Grid grid(nn);
+  std::unique_ptr<Grid> gridPtr(new Grid(nn));
+#define grid (*gridPtr)
   Model m((int)DIM, p.n);
 
   auto idx = [&](int x, int y, int z) {
@@ -122,6 +125,10 @@ Outcome runGrid(const Plan & p, Ctx & c)
       if (translations) {SIM_PROBE("write_after_translate");}
       if (c.record) {c.note(fmt("#%zu write (%d,%d,%d) := %lld", k + 1, x, y, z, (long long)op.value));}
       Outcome o = observe("write", k + 1); if (!o.ok) {return o;}
+    } else if (op.kind == 4) {
+      gridPtr.reset(new Grid(grid)); SIM_COUNT("op.copy"); if (translations) {SIM_PROBE("copy_after_translate");}
+      if (c.record) {c.note(fmt("#%zu continue on a copy", k + 1));}
+      Outcome o = observe("copy", k + 1); if (!o.ok) {return o;}
     } else if (op.kind == 2) {
       grid.setValue(op.value); std::fill(m.cell.begin(), m.cell.end(), op.value);
       SIM_COUNT("op.setValue");
@@ -156,6 +163,7 @@ Outcome runGrid(const Plan & p, Ctx & c)
     }
   }
   return Outcome::pass();
+#undef grid
 }
 
 // ---------------------------------------------------------------------------
@@ -285,6 +293,8 @@ struct PropC15
         op.value = tag++;
       } else if (r.chance(0.03)) {
         op.kind = 2; op.value = tag++;
+      } else if (r.chance(0.03)) {
+        op.kind = 4;
       } else if (nTrans < 50) {
         op.kind = r.chance(0.1) ? 3 : 1; ++nTrans;
         for (int a = 0; a < p.dim; ++a) {
@@ -351,7 +361,7 @@ struct PropC15
       Json a = Json::array(); for (int k = 0; k < p.dim; ++k) {a.push(o.a[k]);}
       if (o.kind == 0) {e.set("op", "write").set("index", a).set("value", (long long)o.value);} else if (o.kind == 2) {
         e.set("op", "setValue").set("value", (long long)o.value);
-      } else if (o.kind == 3) {e.set("op", "translate_default_empty").set("offset", a);} else {
+      } else if (o.kind == 3) {e.set("op", "translate_default_empty").set("offset", a);} else if (o.kind == 4) {e.set("op", "continue_on_copy");} else {
         e.set("op", "translate").set("offset", a).set("empty", (long long)o.value);
       }
       ops.push(e);
@@ -369,7 +379,7 @@ struct PropC15
       if (e["op"].s() == "write") {
         o.kind = 0; o.value = e["value"].i();
         for (int a = 0; a < p.dim; ++a) {o.a[a] = (int)e["index"][a].i();}
-      } else if (e["op"].s() == "setValue") {o.kind = 2; o.value = e["value"].i();} else {
+      } else if (e["op"].s() == "setValue") {o.kind = 2; o.value = e["value"].i();} else if (e["op"].s() == "continue_on_copy") {o.kind = 4;} else {
         o.kind = e["op"].s() == "translate_default_empty" ? 3 : 1; o.value = o.kind == 1 ? e["empty"].i() : 0;
         for (int a = 0; a < p.dim; ++a) {o.a[a] = (int)e["offset"][a].i();}
       }
@@ -421,7 +431,7 @@ struct PropC15
   {
     std::string s = o.cls + "|" + std::to_string(p.dim) + "D|";
     for (auto & op : p.ops) {
-      if (op.kind == 0) {s += "W";} else if (op.kind == 2) {s += "F";} else {
+      if (op.kind == 0) {s += "W";} else if (op.kind == 2) {s += "F";} else if (op.kind == 4) {s += "C";} else {
         s += "T(";
         for (int a = 0; a < p.dim; ++a) {s += (op.a[a] > 0 ? "+" : (op.a[a] < 0 ? "-" : "0"));}
         s += ")";
@@ -440,7 +450,7 @@ struct PropC15
   std::vector<std::string> probeNames() const
   {
     return {"write_after_translate", "second_or_later_translation", "translate_by_at_least_grid_size",
-      "negative_offset_after_previous_wrap", "negative_z_with_survivors", "zero_translation", "set_value_after_translate", "translate_with_default_empty_value"};
+      "negative_offset_after_previous_wrap", "negative_z_with_survivors", "zero_translation", "set_value_after_translate", "translate_with_default_empty_value", "copy_after_translate"};
   }
   Json describe() const
   {
